@@ -72,6 +72,11 @@ def run(report, tier, seed):
         for i in range(6 if quick else 60):
             schedules.append((f"random-{i}", random_schedule(rng)))
         schedules += same_name_schedules(rng, 3 if quick else 30)
+        # the same watcher started with --config overrides: they hold for every regeneration, not only for the first
+        S = lambda v, **kw: ("save", v, kw)
+        schedules += [("overrides-edit-after-start", [("config-overrides",), S(1), ("sleep", 600), S(2), ("sleep", 600), S(3)]),
+                      ("overrides-invalid-then-valid", [("config-overrides",), S(1), ("sleep", 300), S(2, valid=False), ("sleep", 300), S(3), ("sleep", 200), ("save2", 4)]),
+                      ("overrides-burst", [("config-overrides",)] + [S(v, gap=2) for v in range(1, 8)])]
         import concurrent.futures
         with concurrent.futures.ThreadPoolExecutor(max_workers=6) as ex:
             results = list(ex.map(lambda a: execute(ybin, sc.path(f"w{a[0]}"), a[1][1]), enumerate(schedules)))
@@ -227,8 +232,13 @@ def random_schedule(rng):
     return steps
 
 
+CONFIG_OVERRIDES = ["-c", "json.outputDir=../alt_json", "-c", "python.outputDir=../alt_py"]
+
+
 def execute(ybin, root, steps):
     try:
+        if steps and steps[0] == ("config-overrides",):
+            return _execute(ybin, root, steps[1:], CONFIG_OVERRIDES)
         return _execute(ybin, root, steps)
     except Exception:   # noqa: BLE001
         import traceback
@@ -240,7 +250,7 @@ def _write(path, text):
         f.write(text)
 
 
-def _execute(ybin, root, steps):
+def _execute(ybin, root, steps, cfg=()):
     pkg = os.path.join(root, "pkg")
     os.makedirs(pkg, exist_ok=True)
     _write(os.path.join(pkg, "_package.yml"), MANIFEST)
@@ -252,10 +262,10 @@ def _execute(ybin, root, steps):
         _write(os.path.join(root, d, "model.yml"), mdl)
     delay_file = os.path.join(root, "delay")
     log = open(os.path.join(root, "watch.log"), "wb")
-    p = subprocess.Popen([ybin, "generate", "--watch"], cwd=pkg, stdout=log, stderr=subprocess.STDOUT,
+    p = subprocess.Popen([ybin, "generate", "--watch"] + list(cfg), cwd=pkg, stdout=log, stderr=subprocess.STDOUT,
                          env=dict(os.environ, VERIF_WATCH_DELAY_FILE=delay_file, TERM="dumb"))
     try:
-        js = os.path.join(root, "out_json", "model.json")
+        js = os.path.join(root, "alt_json" if cfg else "out_json", "model.json")
         t0 = time.time()
         while not os.path.exists(js) and time.time() - t0 < 20:
             time.sleep(0.02)
@@ -305,12 +315,17 @@ def _execute(ybin, root, steps):
             shutil.copy(os.path.join(pkg, fn), os.path.join(ref, "pkg", fn))
         for d in ("lib", "base"):
             shutil.copytree(os.path.join(root, d), os.path.join(ref, d))
-        r = subprocess.run([ybin, "generate"], cwd=os.path.join(ref, "pkg"), stdout=subprocess.PIPE, stderr=subprocess.STDOUT)
+        r = subprocess.run([ybin, "generate"] + list(cfg), cwd=os.path.join(ref, "pkg"), stdout=subprocess.PIPE, stderr=subprocess.STDOUT)
         diff = None
         if r.returncode != 0:
             diff = "one-shot generate of the final contents failed: " + r.stdout.decode(errors="replace")[-500:]
         else:
-            for d in OUT_DIRS:
+            # the same output directories (with overrides: the overridden ones, and not the manifest's own), with the same content
+            outs_ref = sorted(x for x in os.listdir(ref) if x.startswith(("out_", "alt_")))
+            outs_watch = sorted(x for x in os.listdir(root) if x.startswith(("out_", "alt_")))
+            if outs_ref != outs_watch:
+                diff = f"output directories differ: one-shot {outs_ref} vs watcher {outs_watch}"
+            for d in outs_ref:
                 diff = diff or _tree_diff(os.path.join(ref, d), os.path.join(root, d))
         return {"alive": alive, "diff": diff, "final_version": final, "watch_log_tail": open(os.path.join(root, "watch.log"), errors="replace").read()[-600:]}
     finally:
@@ -321,7 +336,7 @@ def _execute(ybin, root, steps):
 
 def _signature(root):
     sig = []
-    for d in OUT_DIRS:
+    for d in OUT_DIRS + ("alt_json", "alt_py"):
         for dp, _, fns in os.walk(os.path.join(root, d)):
             for fn in sorted(fns):
                 fp = os.path.join(dp, fn)
